@@ -1,6 +1,788 @@
-//! C15 -- (stub; see DESIGN.md section 5)
-use crate::util::Args;
+//! C15: `boxworks::ds::HBox::pack` (TeX's hpack, tex.web 649-667) -- binding F.
+//!
+//! Every subcommand builds real boxworks horizontal lists, calls the real `HBox::pack` and writes
+//! one call event per call:
+//!
+//! ```json
+//! {"items":[{"k":"char","w":..,"h":..,"d":..}, {"k":"hbox","w":..,"h":..,"d":..,"s":..},
+//!           {"k":"glue","w":..,"st":..,"sto":0..3,"sh":..,"sho":0..3}, {"k":"kern","w":..},
+//!           {"k":"penalty"}, ...],
+//!  "m":"exact"|"additional", "t":<dimension>,
+//!  "res":{"w":..,"h":..,"d":..,"s":..,"o":0..3,"num":..,"den":..}}      or "panic":[file,msg]
+//! ```
+//!
+//! `items` are the *inputs* with their dimensions resolved through the same `FontRepo` the packer
+//! is given (characters and ligatures) or read off the node.  No expected value is computed here:
+//! specs/Trace_HPack.tla recomputes the box from `items`, `m`, `t` with the transcription of
+//! TeX's hpack in specs/HPack.tla and compares.
+use crate::util::{catch, quiet_panics, Args, Out, Rng};
+use boxworks::ds;
+use boxworks::FontRepo;
+use common::{GlueOrder, Scaled};
+use serde_json::{json, Value};
+use std::collections::HashMap;
+use std::rc::Rc;
 
-pub fn dispatch(_cmd: &str, _args: &Args) -> Option<i32> {
-    None
+pub fn dispatch(cmd: &str, args: &Args) -> Option<i32> {
+    Some(match cmd {
+        "c15-exh" => exhaustive(args),
+        "c15-rand" => random(args),
+        "c15-replay" => replay(args),
+        "c15-goldens" => goldens(args),
+        _ => return None,
+    })
+}
+
+// ------------------------------------------------------------------------------------------
+// fonts: font 0 = the real cmr10.tfm through boxworks_text::TfmFontRepo, fonts >= 1 = tables
+// ------------------------------------------------------------------------------------------
+
+const CMR10: &[u8] = include_bytes!(concat!(
+    env!("CARGO_MANIFEST_DIR"),
+    "/../../repo/crates/tfm/corpus/computer-modern/cmr10.tfm"
+));
+
+struct Fonts {
+    tfm: boxworks_text::TfmFontRepo,
+    table: HashMap<(char, u32), [i32; 3]>,
+}
+
+impl Fonts {
+    fn new() -> Fonts {
+        let mut tfm: boxworks_text::TfmFontRepo = Default::default();
+        let file = tfm::File::deserialize(CMR10).0.expect("cmr10.tfm deserializes");
+        tfm.register_font(0, file);
+        let mut table = HashMap::new();
+        // synthetic font 1: small, pairwise different width / height / depth, zeros included
+        for (c, whd) in [
+            ('a', [2, 3, 1]),
+            ('b', [1, 1, 2]),
+            ('c', [3, 0, 0]),
+            ('d', [0, 5, 0]),
+            ('e', [1, 0, 4]),
+            ('f', [-1, 2, 2]),
+        ] {
+            table.insert((c, 1), whd);
+        }
+        Fonts { tfm, table }
+    }
+}
+
+impl FontRepo for Fonts {
+    fn width(&self, c: char, font: u32) -> Option<Scaled> {
+        match font {
+            0 => self.tfm.width(c, 0),
+            _ => self.table.get(&(c, font)).map(|x| Scaled(x[0])),
+        }
+    }
+    fn height(&self, c: char, font: u32) -> Option<Scaled> {
+        match font {
+            0 => self.tfm.height(c, 0),
+            _ => self.table.get(&(c, font)).map(|x| Scaled(x[1])),
+        }
+    }
+    fn depth(&self, c: char, font: u32) -> Option<Scaled> {
+        match font {
+            0 => self.tfm.depth(c, 0),
+            _ => self.table.get(&(c, font)).map(|x| Scaled(x[2])),
+        }
+    }
+}
+
+// ------------------------------------------------------------------------------------------
+// node constructors and the event
+// ------------------------------------------------------------------------------------------
+
+#[derive(Debug)]
+struct Note;
+impl ds::Whatsit for Note {}
+
+fn order_of(o: i64) -> GlueOrder {
+    match o {
+        0 => GlueOrder::Normal,
+        1 => GlueOrder::Fil,
+        2 => GlueOrder::Fill,
+        3 => GlueOrder::Filll,
+        _ => panic!("order {o}"),
+    }
+}
+
+fn order_num(o: GlueOrder) -> i64 {
+    match o {
+        GlueOrder::Normal => 0,
+        GlueOrder::Fil => 1,
+        GlueOrder::Fill => 2,
+        GlueOrder::Filll => 3,
+    }
+}
+
+fn chr(c: char, font: u32) -> ds::Horizontal {
+    ds::Char { char: c, font }.into()
+}
+
+fn lig(c: char, font: u32, orig: &str) -> ds::Horizontal {
+    ds::Ligature {
+        char: c,
+        font,
+        original_chars: orig.into(),
+        includes_left_boundary: false,
+        includes_right_boundary: false,
+    }
+    .into()
+}
+
+fn hbox(w: i32, h: i32, d: i32, s: i32, list: Vec<ds::Horizontal>) -> ds::Horizontal {
+    ds::HBox {
+        width: Scaled(w),
+        height: Scaled(h),
+        depth: Scaled(d),
+        shift_amount: Scaled(s),
+        list,
+        ..Default::default()
+    }
+    .into()
+}
+
+fn vbox(w: i32, h: i32, d: i32, s: i32) -> ds::Horizontal {
+    ds::VBox {
+        width: Scaled(w),
+        height: Scaled(h),
+        depth: Scaled(d),
+        shift_amount: Scaled(s),
+        list: vec![ds::Vertical::Kern(ds::Kern { width: Scaled(h + d), kind: ds::KernKind::Explicit })],
+        ..Default::default()
+    }
+    .into()
+}
+
+fn rule(w: i32, h: i32, d: i32) -> ds::Horizontal {
+    ds::Rule { width: Scaled(w), height: Scaled(h), depth: Scaled(d) }.into()
+}
+
+fn glue(w: i32, st: i32, sto: i64, sh: i32, sho: i64, kind: ds::GlueKind) -> ds::Horizontal {
+    ds::Glue {
+        value: common::Glue {
+            width: Scaled(w),
+            stretch: Scaled(st),
+            stretch_order: order_of(sto),
+            shrink: Scaled(sh),
+            shrink_order: order_of(sho),
+        },
+        kind,
+    }
+    .into()
+}
+
+fn kern(w: i32, kind: ds::KernKind) -> ds::Horizontal {
+    ds::Kern { width: Scaled(w), kind }.into()
+}
+
+fn penalty(p: i32) -> ds::Horizontal {
+    ds::Penalty(p).into()
+}
+
+/// A discretionary whose own pre/post-break material is wide and tall: hpack must ignore it
+/// (tex.web 651: `othercases do_nothing`); the `replace_count` following nodes are ordinary nodes.
+fn disc(replace: u32) -> ds::Horizontal {
+    ds::Discretionary {
+        pre_break: vec![ds::Char { char: 'a', font: 1 }.into(), ds::Kern { width: Scaled(7), kind: ds::KernKind::Normal }.into()],
+        post_break: vec![ds::DiscretionaryElem::Rule(ds::Rule { width: Scaled(9), height: Scaled(9), depth: Scaled(9) })],
+        replace_count: replace,
+    }
+    .into()
+}
+
+fn whatsit() -> ds::Horizontal {
+    ds::Horizontal::Whatsit(Rc::new(Note))
+}
+
+/// The node as hpack's *input*: kind and the dimensions TeX's hpack reads from it.
+fn describe(fonts: &Fonts, e: &ds::Horizontal) -> Value {
+    use ds::Horizontal as H;
+    let whd = |c: char, f: u32| -> [i32; 3] {
+        [
+            fonts.width(c, f).expect("generated characters exist in their font").0,
+            fonts.height(c, f).expect("generated characters have a height").0,
+            fonts.depth(c, f).expect("generated characters have a depth").0,
+        ]
+    };
+    match e {
+        H::Char(c) => {
+            let [w, h, d] = whd(c.char, c.font);
+            json!({"k":"char","w":w,"h":h,"d":d})
+        }
+        H::Ligature(l) => {
+            let [w, h, d] = whd(l.char, l.font);
+            json!({"k":"lig","w":w,"h":h,"d":d})
+        }
+        H::HBox(b) => json!({"k":"hbox","w":b.width.0,"h":b.height.0,"d":b.depth.0,"s":b.shift_amount.0}),
+        H::VBox(b) => json!({"k":"vbox","w":b.width.0,"h":b.height.0,"d":b.depth.0,"s":b.shift_amount.0}),
+        H::Rule(r) => json!({"k":"rule","w":r.width.0,"h":r.height.0,"d":r.depth.0}),
+        H::Glue(g) => json!({"k":"glue","w":g.value.width.0,
+            "st":g.value.stretch.0,"sto":order_num(g.value.stretch_order),
+            "sh":g.value.shrink.0,"sho":order_num(g.value.shrink_order)}),
+        H::Kern(k) => json!({"k":"kern","w":k.width.0}),
+        H::Penalty(_) => json!({"k":"penalty"}),
+        H::Discretionary(_) => json!({"k":"disc"}),
+        H::Whatsit(_) => json!({"k":"whatsit"}),
+        H::Mark(_) | H::Insertion(_) | H::Adjust(_) | H::Math(_) => {
+            panic!("generator produced a node kind outside the supported subset")
+        }
+    }
+}
+
+#[derive(Clone, Copy, Debug)]
+enum Target {
+    Exact(i32),
+    Additional(i32),
+}
+
+/// Measured counts for the evidence file (nothing here is an expectation).
+#[derive(Default)]
+struct Stats {
+    seen: std::collections::HashSet<u64>,
+    events: u64,
+    distinct: u64,
+    /// distinct events whose list has glue and whose target is not "natural width"
+    nontrivial: u64,
+    panics: u64,
+    kinds: std::collections::BTreeMap<String, u64>,
+    maxlen: usize,
+}
+
+thread_local! {
+    static STATS: std::cell::RefCell<Stats> = std::cell::RefCell::new(Stats::default());
+}
+
+fn note(items: &[Value], m: &str, amount: i32, panicked: bool) {
+    use std::hash::{Hash, Hasher};
+    let mut h = std::collections::hash_map::DefaultHasher::new();
+    serde_json::to_string(items).unwrap().hash(&mut h);
+    m.hash(&mut h);
+    amount.hash(&mut h);
+    let key = h.finish();
+    STATS.with(|s| {
+        let mut s = s.borrow_mut();
+        s.events += 1;
+        if panicked {
+            s.panics += 1;
+        }
+        if s.seen.insert(key) {
+            s.distinct += 1;
+            let has_glue = items.iter().any(|i| i["k"] == "glue");
+            if has_glue && !(m == "additional" && amount == 0) {
+                s.nontrivial += 1;
+            }
+            for i in items {
+                *s.kinds.entry(i["k"].as_str().unwrap_or("?").to_string()).or_insert(0) += 1;
+            }
+            s.maxlen = s.maxlen.max(items.len());
+        }
+    });
+}
+
+fn write_stats(args: &Args, extra: Value) {
+    if let Some(p) = args.str("stats") {
+        let v = STATS.with(|s| {
+            let s = s.borrow();
+            json!({"events": s.events, "distinct": s.distinct, "nontrivial": s.nontrivial, "panics": s.panics,
+                   "node_kinds": s.kinds, "longest_list": s.maxlen, "gen": extra})
+        });
+        std::fs::write(p, serde_json::to_string(&v).unwrap()).expect("write stats");
+    }
+}
+
+/// Call the real packer once and write the event.  Returns the box (None if it panicked).
+fn call(out: &mut Out, fonts: &Fonts, list: &[ds::Horizontal], t: Target, extra: Option<&Value>) -> Option<ds::HBox> {
+    let items: Vec<Value> = list.iter().map(|e| describe(fonts, e)).collect();
+    let (m, amount) = match t {
+        Target::Exact(x) => ("exact", x),
+        Target::Additional(x) => ("additional", x),
+    };
+    let owned: Vec<ds::Horizontal> = list.to_vec();
+    let r = catch(|| {
+        let pw = match t {
+            Target::Exact(x) => ds::PackWidth::Exact(Scaled(x)),
+            Target::Additional(x) => ds::PackWidth::Additional(Scaled(x)),
+        };
+        ds::HBox::pack(fonts, owned, pw)
+    });
+    let mut ev = json!({"items": &items, "m": m, "t": amount});
+    if let Some(Value::Object(x)) = extra {
+        for (k, v) in x {
+            ev[k.as_str()] = v.clone();
+        }
+    }
+    note(&items, m, amount, r.is_err());
+    match r {
+        Ok(b) => {
+            ev["res"] = json!({"w": b.width.0, "h": b.height.0, "d": b.depth.0, "s": b.shift_amount.0,
+                "o": order_num(b.glue_order), "num": b.glue_ratio.num.0, "den": b.glue_ratio.den.0});
+            out.line(&ev);
+            Some(b)
+        }
+        Err((site, msg)) => {
+            ev["panic"] = json!([site, msg]);
+            out.line(&ev);
+            None
+        }
+    }
+}
+
+// ------------------------------------------------------------------------------------------
+// exhaustive small space
+// ------------------------------------------------------------------------------------------
+
+/// The small alphabet: every node kind the packer supports; glue whose stretch side ranges over
+/// (amount, order) pairs with positive, zero, negative amounts at several orders while the shrink
+/// side is fixed, and vice versa; boxes with positive and negative shifts.
+fn alphabet(level: u32) -> Vec<ds::Horizontal> {
+    use ds::GlueKind as GK;
+    let mut a = vec![
+        chr('a', 1),                      // w2 h3 d1
+        lig('b', 1, "xy"),                // w1 h1 d2
+        hbox(2, 1, 1, 2, vec![chr('c', 1)]), // h-s = -1, d+s = 3
+        vbox(1, 2, 0, -3),                // h-s = 5, d+s = -3
+        rule(1, 4, 0),
+        kern(-1, ds::KernKind::Explicit),
+        penalty(50),
+        disc(1),
+    ];
+    // (amount, order) specs
+    let side: &[(i32, i64)] = if level == 0 {
+        &[(1, 0), (-1, 0), (0, 1), (1, 1), (-1, 1), (2, 2)]
+    } else {
+        &[(1, 0), (-1, 0), (2, 0), (0, 1), (1, 1), (-1, 1), (0, 2), (2, 2), (0, 3), (1, 3)]
+    };
+    for &(amt, o) in side {
+        a.push(glue(1, amt, o, 1, 0, GK::Normal)); // stretch side varies
+        a.push(glue(1, 0, 0, amt, o, GK::Normal)); // shrink side varies
+    }
+    if level > 0 {
+        a.push(whatsit());
+        a.push(glue(0, 1, 1, 1, 1, GK::AlignedLeader));
+        a.push(rule(2, ds::Rule::RUNNING.0, ds::Rule::RUNNING.0));
+    }
+    a
+}
+
+fn exhaustive(args: &Args) -> i32 {
+    quiet_panics();
+    let maxlen: usize = args.num("maxlen", 3);
+    let level: u32 = args.num("level", 0);
+    let span: i32 = args.num("span", 3);
+    let fonts = Fonts::new();
+    let mut out = Out::new(args.str("out"));
+    let alpha = alphabet(level);
+    let n = alpha.len();
+    let mut lists: u64 = 0;
+    for len in 0..=maxlen {
+        let total = (n as u64).pow(len as u32);
+        for code in 0..total {
+            let mut c = code;
+            let mut list: Vec<ds::Horizontal> = Vec::with_capacity(len);
+            for _ in 0..len {
+                list.push(alpha[(c % n as u64) as usize].clone());
+                c /= n as u64;
+            }
+            lists += 1;
+            // natural width as the implementation sees it, only to place the exact targets
+            let nat = call(&mut out, &fonts, &list, Target::Additional(0), None).map(|b| b.width.0);
+            for a in -span..=span {
+                if a != 0 {
+                    call(&mut out, &fonts, &list, Target::Additional(a), None);
+                }
+            }
+            // (a natural width outside TeX's dimension range can only come out of a defect in the
+            // packer; no exact targets are placed relative to it)
+            if let Some(nat) = nat.filter(|n| n.unsigned_abs() < (1 << 30)) {
+                for k in [-2, 0, 1] {
+                    call(&mut out, &fonts, &list, Target::Exact(nat + k), None);
+                }
+            }
+        }
+    }
+    out.flush();
+    write_stats(args, json!({"alphabet": n, "lists": lists, "maxlen": maxlen, "level": level}));
+    eprintln!("c15-exh: alphabet {} lists {} events {}", n, lists, out.lines);
+    0
+}
+
+// ------------------------------------------------------------------------------------------
+// seeded random lists with nested boxes
+// ------------------------------------------------------------------------------------------
+
+struct Gen<'a> {
+    rng: Rng,
+    fonts: &'a Fonts,
+    out: Out,
+    maxlen: usize,
+}
+
+#[derive(Clone)]
+struct Style {
+    /// dimension pool for widths / heights / depths / shifts
+    dims: Vec<i32>,
+    /// pool for stretch / shrink amounts (contains zero and cancelling pairs)
+    amounts: Vec<i32>,
+    /// orders glue may use in this list
+    orders: Vec<i64>,
+    /// no boxes and no rules in this list (characters, ligatures, kerns, glue, penalties, ...)
+    flat: bool,
+}
+
+const CM_CHARS: &[char] = &['a', 'g', 'f', 'l', 'x', 'Q', 'T', 'j', '(', '.', 'W', 'p', 'i', '1'];
+const SY_CHARS: &[char] = &['a', 'b', 'c', 'd', 'e', 'f'];
+
+impl<'a> Gen<'a> {
+    fn style(&mut self) -> Style {
+        let r = &mut self.rng;
+        let scale: i32 = *r.pick(&[1, 1, 7, 100, 65536, 65536, 1 << 18, 655360]);
+        let mut dims = vec![0];
+        for _ in 0..4 {
+            dims.push(r.range(-3, 12) as i32 * scale);
+        }
+        let a = r.range(1, 9) as i32 * scale;
+        let b = r.range(1, 9) as i32 * scale;
+        let mut amounts = vec![0, a, -a, b];
+        if r.chance(1, 3) {
+            amounts.push(-b);
+        }
+        if r.chance(1, 3) {
+            amounts.push(a + b);
+        }
+        let mut orders: Vec<i64> = vec![];
+        for o in 0..4 {
+            if r.chance(1, 2) {
+                orders.push(o);
+            }
+        }
+        if orders.is_empty() {
+            orders.push(r.range(0, 3));
+        }
+        let flat = r.chance(1, 3);
+        Style { dims, amounts, orders, flat }
+    }
+
+    fn dim(&mut self, st: &Style) -> i32 {
+        *self.rng.pick(&st.dims)
+    }
+
+    fn pos_dim(&mut self, st: &Style) -> i32 {
+        self.dim(st).abs()
+    }
+
+    fn list(&mut self, st: &Style, depth: u32) -> Vec<ds::Horizontal> {
+        let len = self.rng.below(self.maxlen as u64 + 1) as usize;
+        let mut v = Vec::with_capacity(len);
+        // how glue-heavy this list is
+        let glue_w = *self.rng.pick(&[2u64, 4, 6]);
+        while v.len() < len {
+            let mut k = self.rng.below(12 + glue_w);
+            if st.flat && (3..=5).contains(&k) {
+                k = self.rng.below(3);
+            }
+            let e = match k {
+                0 => chr(*self.rng.pick(CM_CHARS), 0),
+                1 => chr(*self.rng.pick(SY_CHARS), 1),
+                2 => {
+                    if self.rng.chance(1, 2) {
+                        lig(*self.rng.pick(&['\u{b}', '\u{c}', '\u{e}']), 0, "ffi")
+                    } else {
+                        lig(*self.rng.pick(SY_CHARS), 1, "ab")
+                    }
+                }
+                3 => {
+                    // nested box packed by the real packer, then shifted
+                    if depth < 2 && self.rng.chance(2, 3) {
+                        let inner = self.list(st, depth + 1);
+                        let t = if self.rng.chance(1, 2) {
+                            Target::Additional(*self.rng.pick(&st.amounts))
+                        } else {
+                            Target::Additional(0)
+                        };
+                        match call(&mut self.out, self.fonts, &inner, t, None) {
+                            Some(mut b) => {
+                                b.shift_amount = Scaled(self.dim(st));
+                                b.into()
+                            }
+                            None => hbox(1, 1, 1, 0, vec![]),
+                        }
+                    } else {
+                        let (w, h, d, s) = (self.dim(st), self.pos_dim(st), self.pos_dim(st), self.dim(st));
+                        hbox(w, h, d, s, vec![])
+                    }
+                }
+                4 => {
+                    let (w, h, d, s) = (self.pos_dim(st), self.pos_dim(st), self.pos_dim(st), self.dim(st));
+                    vbox(w, h, d, s)
+                }
+                5 => {
+                    let (w, h, d) = (self.pos_dim(st), self.dim(st), self.dim(st));
+                    if self.rng.chance(1, 6) {
+                        rule(w, ds::Rule::RUNNING.0, ds::Rule::RUNNING.0)
+                    } else {
+                        rule(w, h, d)
+                    }
+                }
+                6 | 7 => {
+                    let kind = *self.rng.pick(&[
+                        ds::KernKind::Normal,
+                        ds::KernKind::Explicit,
+                        ds::KernKind::Accent,
+                        ds::KernKind::Math,
+                    ]);
+                    kern(self.dim(st), kind)
+                }
+                8 => penalty(self.rng.range(-10000, 10000) as i32),
+                9 => disc(self.rng.below(3) as u32),
+                10 => whatsit(),
+                _ => {
+                    let kind = match self.rng.below(12) {
+                        0 => ds::GlueKind::ConditionalMath,
+                        1 => ds::GlueKind::Math,
+                        2 => ds::GlueKind::AlignedLeader,
+                        3 => ds::GlueKind::CenteredLeader,
+                        4 => ds::GlueKind::ExpandedLeader,
+                        _ => ds::GlueKind::Normal,
+                    };
+                    let w = self.dim(st);
+                    let s1 = *self.rng.pick(&st.amounts);
+                    let o1 = *self.rng.pick(&st.orders);
+                    let s2 = *self.rng.pick(&st.amounts);
+                    let o2 = *self.rng.pick(&st.orders);
+                    glue(w, s1, o1, s2, o2, kind)
+                }
+            };
+            v.push(e);
+        }
+        v
+    }
+
+    /// Targets for one list: natural, additional +-, exact at / around `natural +- total` of every
+    /// order that occurs (these sums only choose *inputs*; nothing here is compared with the result).
+    fn targets(&mut self, st: &Style, list: &[ds::Horizontal], nat: i32) -> Vec<Target> {
+        // a natural width outside TeX's dimension range (|d| < 2^30) can only come out of a defect
+        // in the packer; exact targets are then not placed relative to it
+        let huge = nat.unsigned_abs() >= (1 << 30);
+        let mut ts = if huge { vec![] } else { vec![Target::Exact(nat)] };
+        let mut tot_st = [0i64; 4];
+        let mut tot_sh = [0i64; 4];
+        for e in list {
+            if let ds::Horizontal::Glue(g) = e {
+                tot_st[order_num(g.value.stretch_order) as usize] += g.value.stretch.0 as i64;
+                tot_sh[order_num(g.value.shrink_order) as usize] += g.value.shrink.0 as i64;
+            }
+        }
+        let mut cands: Vec<i64> = vec![1, -1];
+        for o in 0..4 {
+            for k in [-1i64, 0, 1] {
+                if tot_st[o] != 0 {
+                    cands.push(tot_st[o] + k);
+                    cands.push(tot_st[o] / 2 + k);
+                    cands.push(2 * tot_st[o] + k);
+                }
+                if tot_sh[o] != 0 {
+                    cands.push(-tot_sh[o] + k);
+                    cands.push(-tot_sh[o] / 2 + k);
+                    cands.push(-2 * tot_sh[o] + k);
+                }
+            }
+        }
+        for _ in 0..3 {
+            let a = *self.rng.pick(&st.amounts) as i64;
+            cands.push(a);
+            cands.push(-a);
+            cands.push(self.rng.range(-5, 5) * (a.abs().max(1)) / 3);
+        }
+        // keep a bounded, seeded selection
+        let want = 6;
+        for _ in 0..want {
+            let x = *self.rng.pick(&cands);
+            if x.abs() < (1 << 29) {
+                if huge || self.rng.chance(1, 2) {
+                    ts.push(Target::Additional(x as i32));
+                } else {
+                    ts.push(Target::Exact((nat as i64 + x) as i32));
+                }
+            }
+        }
+        ts
+    }
+}
+
+fn random(args: &Args) -> i32 {
+    quiet_panics();
+    let seed: u64 = args.num("seed", 1);
+    let n: u64 = args.num("n", 1000);
+    let maxlen: usize = args.num("maxlen", 12);
+    let fonts = Fonts::new();
+    let out = Out::new(args.str("out"));
+    let mut g = Gen { rng: Rng::new(seed ^ 0xC15), fonts: &fonts, out, maxlen };
+    for _ in 0..n {
+        let st = g.style();
+        let list = g.list(&st, 0);
+        let nat = match call(&mut g.out, g.fonts, &list, Target::Additional(0), None) {
+            Some(b) => b.width.0,
+            None => continue,
+        };
+        let ts = g.targets(&st, &list, nat);
+        for t in ts {
+            call(&mut g.out, g.fonts, &list, t, None);
+        }
+    }
+    g.out.flush();
+    write_stats(args, json!({"lists": n, "maxlen": maxlen, "seed": seed}));
+    eprintln!("c15-rand: events {}", g.out.lines);
+    0
+}
+
+// ------------------------------------------------------------------------------------------
+// replay: rebuild real nodes from the `items` of recorded events and pack them again
+// ------------------------------------------------------------------------------------------
+
+fn replay(args: &Args) -> i32 {
+    quiet_panics();
+    let text = std::fs::read_to_string(args.req("in")).expect("read input");
+    let mut out = Out::new(args.str("out"));
+    for line in text.lines().filter(|l| !l.trim().is_empty()) {
+        let ev: Value = serde_json::from_str(line).expect("event json");
+        let mut fonts = Fonts::new();
+        let mut list = vec![];
+        let g = |it: &Value, k: &str| it[k].as_i64().unwrap_or(0) as i32;
+        for (i, it) in ev["items"].as_array().expect("items").iter().enumerate() {
+            let c = char::from_u32(0xE000 + i as u32).unwrap();
+            let e = match it["k"].as_str().unwrap_or("") {
+                "char" => {
+                    fonts.table.insert((c, 2), [g(it, "w"), g(it, "h"), g(it, "d")]);
+                    chr(c, 2)
+                }
+                "lig" => {
+                    fonts.table.insert((c, 2), [g(it, "w"), g(it, "h"), g(it, "d")]);
+                    lig(c, 2, "xy")
+                }
+                "hbox" => hbox(g(it, "w"), g(it, "h"), g(it, "d"), g(it, "s"), vec![]),
+                "vbox" => {
+                    ds::VBox {
+                        width: Scaled(g(it, "w")),
+                        height: Scaled(g(it, "h")),
+                        depth: Scaled(g(it, "d")),
+                        shift_amount: Scaled(g(it, "s")),
+                        ..Default::default()
+                    }
+                    .into()
+                }
+                "rule" => rule(g(it, "w"), g(it, "h"), g(it, "d")),
+                "glue" => glue(
+                    g(it, "w"),
+                    g(it, "st"),
+                    it["sto"].as_i64().unwrap_or(0),
+                    g(it, "sh"),
+                    it["sho"].as_i64().unwrap_or(0),
+                    ds::GlueKind::Normal,
+                ),
+                "kern" => kern(g(it, "w"), ds::KernKind::Explicit),
+                "penalty" => penalty(0),
+                "disc" => disc(0),
+                "whatsit" => whatsit(),
+                k => {
+                    eprintln!("unknown item kind {k}");
+                    return 2;
+                }
+            };
+            list.push(e);
+        }
+        let t = ev["t"].as_i64().unwrap_or(0) as i32;
+        let t = if ev["m"].as_str() == Some("exact") { Target::Exact(t) } else { Target::Additional(t) };
+        let b = call(&mut out, &fonts, &list, t, None);
+        if let Some(b) = b {
+            eprintln!("list: {}", b.list.iter().map(|e| format!("{e}")).collect::<Vec<_>>().join(" "));
+            eprintln!(
+                "pack -> width={} height={} depth={} glue_order={:?} glue_ratio={}/{}",
+                b.width.0, b.height.0, b.depth.0, b.glue_order, b.glue_ratio.num.0, b.glue_ratio.den.0
+            );
+        }
+    }
+    out.flush();
+    0
+}
+
+// ------------------------------------------------------------------------------------------
+// the repository's golden paragraphs: lines set by real TeX (boxworks-knuthplass/testdata)
+// ------------------------------------------------------------------------------------------
+
+const GOLDEN_DIR: &str = concat!(
+    env!("CARGO_MANIFEST_DIR"),
+    "/../../repo/crates/boxworks-knuthplass/testdata"
+);
+
+/// Every `hbox` of every `*_want.txt` golden (written from real TeX's log by the repository's
+/// TEXCRAFT_VERIFY mode) is one line of a paragraph: its list is packed again by the real packer
+/// to the golden's width.  The event also carries TeX's own box as `tex` so that the
+/// specification itself is compared with real TeX (to the precision TeX prints).
+fn goldens(args: &Args) -> i32 {
+    quiet_panics();
+    let fonts = Fonts::new();
+    let mut out = Out::new(args.str("out"));
+    let dir = args.str("dir").unwrap_or(GOLDEN_DIR);
+    let mut files: Vec<_> = match std::fs::read_dir(dir) {
+        Ok(rd) => rd.filter_map(|e| e.ok()).map(|e| e.path()).collect(),
+        Err(e) => {
+            eprintln!("cannot read {dir}: {e}");
+            return 2;
+        }
+    };
+    files.retain(|p| p.file_name().and_then(|n| n.to_str()).map(|n| n.ends_with("_want.txt")).unwrap_or(false));
+    files.sort();
+    let mut lines = 0u64;
+    for f in &files {
+        let text = std::fs::read_to_string(f).expect("read golden");
+        let list = match boxworks::lang::parse_horizontal_list(&text) {
+            Ok(l) => l,
+            Err(_) => {
+                eprintln!("golden {} does not parse", f.display());
+                return 2;
+            }
+        };
+        let mut boxes: Vec<ds::HBox> = vec![];
+        fn walk_h(l: &[ds::Horizontal], acc: &mut Vec<ds::HBox>) {
+            for e in l {
+                match e {
+                    ds::Horizontal::VBox(v) => walk_v(&v.list, acc),
+                    ds::Horizontal::HBox(h) => {
+                        acc.push(h.clone());
+                        walk_h(&h.list, acc);
+                    }
+                    _ => {}
+                }
+            }
+        }
+        fn walk_v(l: &[ds::Vertical], acc: &mut Vec<ds::HBox>) {
+            for e in l {
+                match e {
+                    ds::Vertical::VBox(v) => walk_v(&v.list, acc),
+                    ds::Vertical::HBox(h) => {
+                        acc.push(h.clone());
+                        walk_h(&h.list, acc);
+                    }
+                    _ => {}
+                }
+            }
+        }
+        walk_h(&list, &mut boxes);
+        let name = f.file_name().unwrap().to_string_lossy().to_string();
+        for b in boxes {
+            if b.list.is_empty() {
+                continue;
+            }
+            lines += 1;
+            let tex = json!({"tex": {"w": b.width.0, "h": b.height.0, "d": b.depth.0, "o": order_num(b.glue_order),
+                "num": b.glue_ratio.num.0, "den": b.glue_ratio.den.0}, "file": name});
+            call(&mut out, &fonts, &b.list, Target::Exact(b.width.0), Some(&tex));
+        }
+    }
+    out.flush();
+    write_stats(args, json!({"golden_files": files.len(), "lines": lines}));
+    eprintln!("c15-goldens: files {} lines {}", files.len(), lines);
+    0
 }
